@@ -1437,6 +1437,14 @@ int32 matrixResumeSession(ssl_t *ssl)
         return PS_FAILURE;
     }
 
+    /* The cached suite must (still) be one this session may use: it can have
+       been disabled for this session or globally since the entry was made */
+    if (sslGetCipherSpec(ssl, g_sessionTable[i].cipher->ident) == NULL)
+    {
+        psUnlockMutex(&g_sessionTableLock);
+        return PS_FAILURE;
+    }
+
     /* A session established without client authentication is no substitute
        for the client authentication this server session requires */
     if ((ssl->flags & SSL_FLAGS_CLIENT_AUTH) && !g_sessionTable[i].clientAuthed)
